@@ -350,7 +350,7 @@ out:
 static void add_scen(const char *name, skind_t kind, int prov, int key, int variant)
 {
 	static char names[MAXS][64];
-	if (ns >= MAXS) return;
+	if (ns >= MAXS) vh_harness_fail("more than %d scenarios", MAXS);
 	snprintf(names[ns], sizeof(names[0]), "%s", name);
 	S[ns] = (scen_t){ names[ns], kind, prov, key, variant };
 	ns++;
